@@ -1,0 +1,22 @@
+//! Verification hooks, compiled only with the `verif-hooks` cargo feature.
+//!
+//! A simulator can install a callback which is then called at marked points
+//! inside parallel sections. Without an installed callback, or without the
+//! feature, nothing happens.
+
+use std::sync::OnceLock;
+
+static SCHED_POINT: OnceLock<fn(u32)> = OnceLock::new();
+
+/// Install the callback run by [`sched_point`]. Only the first call has an effect.
+pub fn install_sched_point(f: fn(u32)) {
+    let _ = SCHED_POINT.set(f);
+}
+
+/// A point where a simulator may switch to another task. `site` identifies the call site.
+#[inline]
+pub fn sched_point(site: u32) {
+    if let Some(f) = SCHED_POINT.get() {
+        f(site)
+    }
+}
